@@ -328,9 +328,19 @@ func (s *sess) stageA() {
 		}
 		return len(u) > 0
 	}
-	if onlyEvents() {
+	// likewise a request whose read-timeout goroutine is still alive will be closed by it when the read
+	// timeout expires: "never closed" can only be said once no such goroutine is left
+	liveTimers := func() bool {
+		for _, g := range clientGoroutines() {
+			if strings.Contains(g.Top, "startTimeout") {
+				return true
+			}
+		}
+		return false
+	}
+	if onlyEvents() || liveTimers() {
 		if waitUntil(s.rt+2*time.Second, s.goalA) {
-			s.res.count("ReceiveEvent_returned_by_read_timeout", 1)
+			s.res.count("goal_reached_by_a_library_timeout", 1)
 			s.reportCallPanics()
 			s.judgeRequests("A", false, nil)
 			s.judgeLaterSends()
